@@ -27,6 +27,8 @@ func runC05(c *Check, tier string) {
 	ruleR13b(c, analyseGate(c, "R05g"), "R05g")
 	// a missing or unreadable declared output fails the target: no error on the write path is dropped
 	ruleWritePathErrors(c, "R05i")
+	// nothing of a failed target is stored: the store path
+	useFamily(c, "R05j", famStore, 20)
 	// a target that failed (also by timeout) is recorded as failed: the routine reports every outcome but cancellation
 	if w := findWalker(c, "R05h"); w != nil {
 		shareRule(c, "R05h", "after the callback returned the node routine reports a completion on every path unless the error is context.Canceled (same obligation as R04c)", 1, "R04c", func(sub *Check) { ruleR04c(sub, w) }, func(k string) bool { return strings.Contains(k, "completion-on-every-exit") })
